@@ -80,6 +80,30 @@ def outside_pair(rng, r):
     return a, b
 
 
+def slash_pair(rng, r):
+    """Two rules whose paths differ only by a trailing '/', a doubled '/' or a '/./' segment (a directory and a file, for AppArmor)."""
+    import copy
+    keys = [k for k, v in r.items() if isinstance(v, str) and v.startswith("/") or (isinstance(v, str) and v.startswith("@{")) and k in ("Path", "MountPoint", "Source")]
+    keys = [k for k in keys if k in ("Path", "MountPoint", "Source") and not r[k].startswith('"') and len(r[k]) > 2]
+    if not keys:
+        return None
+    k = rng.choice(keys)
+    a, b = copy.deepcopy(r), copy.deepcopy(r)
+    a["Comment"] = b["Comment"] = ""
+    base = r[k].rstrip("/")
+    if not base or base.endswith("*") or base.endswith("}"):
+        return None
+    how = rng.choice(["trailing", "trailing", "double"])
+    if how == "trailing":
+        a[k], b[k] = base, base + "/"
+    else:
+        j = base.rfind("/")
+        if j <= 0:
+            return None
+        a[k], b[k] = base, base[:j] + "/" + base[j:]
+    return a, b
+
+
 def padded_pair(rng, r):
     """Two rules that differ only in the zero padding of a number inside one string field (tty1 / tty01)."""
     import copy
@@ -162,11 +186,21 @@ def run(ctx):
             if ab:
                 extra += list(ab)
                 twins.append(ab)
+        if rng.random() < 0.2:
+            ab = slash_pair(rng, r)
+            if ab:
+                extra += list(ab)
+                twins.append(ab)
     line_rules = [{"kind": "comment", "text": "# " + c, "Comment": ""} for c in ("first note", "second note", "Zeta", "alpha")]
     line_rules += [{"kind": "include", "text": "include <abstractions/%s>" % a, "Comment": ""} for a in ("base", "nameservice-strict", "dconf-write", "bus-session")]
     line_rules += [{"kind": "include", "text": "include if exists <local/foo>", "Comment": ""}]
     pool, ood = calibrate(ctx, pool + extra, ov)
     pool += line_rules
+    # one plain rule per documented path prefix (same tail, owner, access): every triple of them is compared, so that the order of
+    # the prefix groups is checked completely, not by the luck of the draw
+    grid = [{"kind": "file", "Comment": "", "Audit": False, "AccessType": "", "Owner": False, "Target": "", "Path": px + "/zz", "Access": ["r"]}
+            for px in KNOWN_PREFIXES]
+    pool += grid
     ctx.extra["out_of_domain_rules"] = ood
     bykind = {}
     for r in pool:
@@ -180,6 +214,7 @@ def run(ctx):
     # --- triples ---------------------------------------------------------------------------
     triples = []
     kinds = [k for k in bykind if len(bykind[k]) >= 3 and k not in ("comment",)]
+    triples += [list(t3) for t3 in itertools.combinations(grid, 3)]
     alive = {id(r) for r in pool}
     twins = [(a, b) for a, b in twins if id(a) in alive and id(b) in alive]
     for _ in range(n_tr):
